@@ -472,8 +472,8 @@ func (c *c12q) members(only *c12qCase) {
 	wire, notOnWire := c12qWireMembers()
 	rep.Note("ProcessorOptions members carried by the wire message (%d): %s", len(wire), strings.Join(wire, " "))
 	rep.Note("ProcessorOptions members with no counterpart in the wire message, not compared (%d): %s", len(notOnWire), strings.Join(notOnWire, " "))
-	rep.Count("options_members_on_wire", int64(len(wire)))
-	rep.Count("options_members_not_on_wire", int64(len(notOnWire)))
+	rep.Max("max_options_members_on_wire", int64(len(wire)))
+	rep.Max("max_options_members_not_on_wire", int64(len(notOnWire)))
 	ot := reflect.TypeOf(ProcessorOptions{})
 	all := &ProcessorOptions{}
 	item := 0
@@ -495,7 +495,7 @@ func (c *c12q) members(only *c12qCase) {
 			cs := c12qCase{Part: "members", Field: name, Index: i}
 			key := fmt.Sprintf("members: %s[%d]", name, i)
 			if rep.DistinctNontrivial(kit.Hash("member", name, strconv.Itoa(i))) {
-				rep.Sample(2, map[string]string{"part": "members", "member": name, "value": fmt.Sprintf("%v", c12qNilIfEmpty(v))})
+				rep.Sample(1, map[string]string{"part": "members", "member": name, "value": fmt.Sprintf("%v", c12qNilIfEmpty(v))})
 			}
 			dec, err := c12qRoundTrip(opt)
 			if err != nil {
@@ -555,7 +555,7 @@ func (c *c12q) statement(text string, wire []string) {
 		opt.Expr = sel.Fields[0].Expr
 	}
 	if rep.DistinctNontrivial(kit.Hash("stmt", text)) {
-		rep.Sample(4, map[string]string{"part": "statements", "text": text})
+		rep.Sample(2, map[string]string{"part": "statements", "text": text})
 	}
 	cs := c12qCase{Part: "statements", Text: text}
 	key := "statements: " + text
